@@ -29,7 +29,7 @@ ASSUMPTIONS = [
 ]
 SHARDS = {"quick": 4, "thorough": 16}
 MIN_REACH = {
-    "calls_logged": {"quick": 3000, "thorough": 60000},
+    "calls_logged": {"quick": 3000, "thorough": 200000},
     "distinct_completion_orders": {"quick": 40, "thorough": 700},
     "real_pool_cases": {"quick": 8, "thorough": 100},
     "distinct_worker_pids": {"quick": 3, "thorough": 3},
@@ -64,7 +64,7 @@ REAL = ("threadpool", "processpool", "mppool", "parallel_true", "parallel_int", 
 
 def cases(ctx):
     rng = ctx.rng("cases")
-    n_inproc = ctx.pick(300, 5000)
+    n_inproc = ctx.pick(300, 15000)
     inproc = ["seq", "shuffle_true", "shuffle_int", "fake_submit", "fake_apply"]
     for i in range(n_inproc):
         name = inproc[i % len(inproc)]
